@@ -128,7 +128,23 @@ class Body:
     def loc(self, bb=None, line=None):
         if line is None:
             line = self.line_of(bb) if bb is not None else self.lo
-        return f"{self.file}:{line}"
+        f = self.blocks[bb].get("file", self.file) if bb is not None and bb in self.blocks else self.file
+        return f"{f}:{line}"
+
+    def origin(self, bb):
+        """the body whose code block bb is (for blocks spliced in by a view)"""
+        return self.blocks[bb].get("origin", self.name)
+
+    def locate(self, origin_name, orig_bb):
+        """block id, in this (view) body, of block `orig_bb` of body `origin_name`; None if that code is not part of this body"""
+        if origin_name == self.name and "origin" not in self.blocks.get(orig_bb, {"origin": 1}):
+            return orig_bb
+        if not hasattr(self, "_loc"):
+            self._loc = {}
+            for b in self.j["blocks"]:
+                if "origin" in b:
+                    self._loc[(b["origin"], b.get("orig_id"))] = b["id"]
+        return self._loc.get((origin_name, orig_bb))
 
     # ------------------------------------------------- P2: dominators (edge-split graph)
     def _build_dom(self):
@@ -387,10 +403,22 @@ def rv_sources(rv):
     return pl, cs
 
 
+_FACTS_FOR_CONSTS = []
+
+
 def const_atoms(c):
     out = {("const", c["val"])}
     if "def" in c:
         out.add(("constdef", c["def"]))
+        # a named constant stands for the aggregates its initialiser builds (e.g. `const KINDS: [ExecutionKind; 2] = [Build, Service]`)
+        for f in _FACTS_FOR_CONSTS[-1:]:
+            cb = f.bodies.get(c["def"])
+            if cb is not None and cb.kind in ("Const", "Static"):
+                for blk in cb.normal_blocks():
+                    for st in blk["stmts"]:
+                        rv = st["rv"]
+                        if rv["k"] == "agg" and "adt" in rv:
+                            out.add(("agg", rv["adt"], rv["variant"]))
     if "static" in c:
         out.add(("static", c["static"]))
     if "fn" in c:
@@ -602,6 +630,8 @@ class Facts:
         self._ret = {}
         self._ret_inprogress = set()
         self._cg = None
+        _FACTS_FOR_CONSTS.clear()
+        _FACTS_FOR_CONSTS.append(self)
         self.derived_prefixes = tuple(f"<{i['self']} as {i['trait']}" for i in self.impls if i["derived"])
 
     # bodies that are code (not const/static initialisers)
@@ -657,6 +687,22 @@ class Facts:
                         if st["lhs"]["local"] == 0 and st["rv"]["k"] == "use" and st["rv"]["op"]["k"] == "const":
                             return st["rv"]["op"]["val"]
         return None
+
+    # ------------------------------------------------- views (single-call-site callees spliced in)
+    def view(self, name_or_body):
+        name = name_or_body if isinstance(name_or_body, str) else name_or_body.name
+        if not hasattr(self, "_vb"):
+            self._vb = ViewBuilder(self)
+            self._views = {}
+        if name not in self._views:
+            j = self._vb.view_json(name)
+            if j is self._vb.raw.get(name) or len(j["blocks"]) == len(self.bodies[name].j["blocks"]):
+                self._views[name] = self.bodies[name]
+            else:
+                v = Body(j, self)
+                v.is_view = True
+                self._views[name] = v
+        return self._views[name]
 
     # ------------------------------------------------- P9: call graph
     @property
@@ -802,3 +848,244 @@ def short(name):
     name = re.sub(r"\{closure#(\d+)\}", r"{c\1}", name)
     parts = name.split("::")
     return "::".join(parts[-4:]) if len(parts) > 4 else name
+
+
+# ======================================================================================================================
+# Views: a body with its single-call-site local callees spliced in (DESIGN.md section 12).
+#
+# A helper that is called from exactly one place is, semantically, a named block of its caller. `Facts.view(name)` returns a Body whose
+# CFG contains, after every such call, the callee's own (view) CFG: the call terminator is kept (so "calls f" rules still see it) and
+# retargeted to a copy of the callee's entry; the callee's returns assign the call's destination and continue at the call's original
+# target. For a directly awaited `async fn` the coroutine body is spliced in at the poll site, its environment bound to the arguments of
+# the creating call. Views are supersets of the raw body: nothing is removed, so every rule that holds on the raw body's own blocks is
+# unaffected, while dominance/region/path rules see through helper extraction.
+import copy
+
+
+def _ren_place(p, lo, bo):
+    q = dict(p)
+    q["local"] = p["local"] + lo
+    pr2 = []
+    for pr in p["proj"]:
+        if pr["k"] == "index":
+            pr = dict(pr)
+            pr["local"] = pr["local"] + lo
+        pr2.append(pr)
+    q["proj"] = pr2
+    return q
+
+
+def _ren_op(o, lo, bo):
+    if o["k"] in ("copy", "move"):
+        q = dict(o)
+        q["place"] = _ren_place(o["place"], lo, bo)
+        return q
+    return o
+
+
+def _ren_rv(rv, lo, bo):
+    k = rv["k"]
+    q = dict(rv)
+    if k == "use":
+        q["op"] = _ren_op(rv["op"], lo, bo)
+    elif k in ("ref", "rawptr", "discr"):
+        q["place"] = _ren_place(rv["place"], lo, bo)
+    elif k == "binop":
+        q["a"] = _ren_op(rv["a"], lo, bo)
+        q["b"] = _ren_op(rv["b"], lo, bo)
+    elif k == "unop":
+        q["a"] = _ren_op(rv["a"], lo, bo)
+    elif k == "cast":
+        q["op"] = _ren_op(rv["op"], lo, bo)
+    elif k == "agg":
+        q["ops"] = [_ren_op(o, lo, bo) for o in rv["ops"]]
+    return q
+
+
+def _ren_term(t, lo, bo):
+    q = dict(t)
+    k = t["k"]
+    if k in ("goto", "drop", "assert"):
+        q["target"] = t["target"] + bo
+        if k == "drop":
+            q["place"] = _ren_place(t["place"], lo, bo)
+        if k == "assert":
+            q["cond"] = _ren_op(t["cond"], lo, bo)
+    elif k == "call":
+        q["target"] = t["target"] + bo if t["target"] >= 0 else -1
+        q["args"] = [_ren_op(a, lo, bo) for a in t["args"]]
+        q["dest"] = _ren_place(t["dest"], lo, bo)
+        q["func"] = _ren_op(t["func"], lo, bo)
+    elif k == "yield":
+        q["resume"] = t["resume"] + bo
+        q["drop"] = t["drop"] + bo if t["drop"] >= 0 else -1
+        q["value"] = _ren_op(t["value"], lo, bo)
+    elif k == "switch":
+        q["discr"] = _ren_op(t["discr"], lo, bo)
+        q["targets"] = [[v, tg + bo] for (v, tg) in t["targets"]]
+        q["otherwise"] = t["otherwise"] + bo
+        if "on" in t:
+            q["on"] = _ren_place(t["on"], lo, bo)
+    return q
+
+
+def _copy_blocks(cj, lo, bo, origin_name, origin_file):
+    out = []
+    for b in cj["blocks"]:
+        nb = {"id": b["id"] + bo, "cleanup": b["cleanup"], "stmts": [], "origin": b.get("origin", origin_name), "file": b.get("file", origin_file), "orig_id": b.get("orig_id", b["id"])}
+        for st in b["stmts"]:
+            nb["stmts"].append({"lhs": _ren_place(st["lhs"], lo, bo), "rv": _ren_rv(st["rv"], lo, bo), "line": st.get("line")})
+        nb["term"] = _ren_term(b["term"], lo, bo)
+        out.append(nb)
+    return out
+
+
+class ViewBuilder:
+    def __init__(self, facts):
+        self.f = facts
+        self.raw = {n: b.j for n, b in facts.bodies.items()}
+        self.memo = {}
+        self.in_progress = set()
+        self.inlined_into = {}   # callee fn name -> caller body name (for the callee's own code)
+        self._sites = None
+
+    def call_sites(self):
+        """local fn name -> [(caller body name, block id)] over user bodies, and the set of fns whose address is taken"""
+        if self._sites is not None:
+            return self._sites
+        sites = collections.defaultdict(list)
+        taken = set()
+        for n, b in self.f.bodies.items():
+            if self.f.is_derived(b):
+                continue
+            for blk in b.j["blocks"]:
+                if blk["cleanup"]:
+                    continue
+                for st in blk["stmts"]:
+                    pl, cs = rv_sources(st["rv"])
+                    for c in cs:
+                        if "fn" in c:
+                            taken.add(c["fn"].split("::<")[0])
+                t = blk["term"]
+                if t["k"] == "call":
+                    if t["callee"]:
+                        cn = t["callee"]["rbase"] or t["callee"]["base"]
+                        if cn in self.raw:
+                            sites[cn].append((n, blk["id"]))
+                    for a in t["args"]:
+                        if a["k"] == "const" and "fn" in a:
+                            taken.add(a["fn"].split("::<")[0])
+        self._sites = (sites, taken)
+        return self._sites
+
+    def inlinable(self, callee, caller):
+        sites, taken = self.call_sites()
+        b = self.f.bodies.get(callee)
+        if b is None or b.kind not in ("Fn", "AssocFn") or callee in taken or self.f.is_derived(b):
+            return False
+        if len(sites.get(callee, ())) != 1:
+            return False
+        if callee == caller or callee in self.in_progress:
+            return False
+        # not recursive (directly or through its async body)
+        if callee in self.f.cg.reach([callee]) - {callee} and callee in self.f.cg.edges.get(callee, ()):
+            return False
+        return True
+
+    def view_json(self, name):
+        if name in self.memo:
+            return self.memo[name]
+        if name in self.in_progress:
+            return self.raw[name]
+        self.in_progress.add(name)
+        j = copy.deepcopy(self.raw[name])
+        body = self.f.bodies[name]
+        from idioms import awaits  # local import: idioms imports facts
+        aw_by_call = {}
+        for a in awaits(body):
+            if a.producer and a.poll_call_bb is not None:
+                aw_by_call[a.producer[0]] = a
+        nblocks0 = len(j["blocks"])
+        for blk in list(j["blocks"][:nblocks0]):
+            if blk["cleanup"]:
+                continue
+            t = blk["term"]
+            if t["k"] != "call" or not t["callee"]:
+                continue
+            cn = t["callee"]["rbase"] or t["callee"]["base"]
+            if cn not in self.raw or not self.inlinable(cn, name):
+                continue
+            co_name = cn + "::{closure#0}"
+            is_async = co_name in self.raw and self.f.bodies[co_name].coroutine
+            if is_async:
+                a = aw_by_call.get(blk["id"])
+                if a is None:
+                    continue  # the future is not awaited here (spawned, fused, passed on): stays a call
+                self._splice_async(j, blk, a, cn, co_name)
+            else:
+                if self.f.bodies[cn].ret.startswith("impl ") and "Future" in self.f.bodies[cn].ret:
+                    continue
+                self._splice_sync(j, blk, cn)
+            self.inlined_into[cn] = name
+        self.in_progress.discard(name)
+        self.memo[name] = j
+        return j
+
+    def _append(self, j, cj, origin_name):
+        lo = len(j["locals"])
+        bo = len(j["blocks"])
+        j["locals"] = j["locals"] + [dict(l) for l in cj["locals"]]
+        j["blocks"] = j["blocks"] + _copy_blocks(cj, lo, bo, origin_name, cj["span"]["file"])
+        return lo, bo
+
+    def _splice_sync(self, j, blk, cn):
+        cj = self.view_json(cn)
+        t = blk["term"]
+        lo, bo = self._append(j, cj, cn)
+        line = t.get("line")
+        # bind parameters
+        pre = {"id": len(j["blocks"]), "cleanup": False, "stmts": [], "origin": cn, "file": cj["span"]["file"]}
+        for i, a in enumerate(t["args"]):
+            if i + 1 <= cj["argc"]:
+                pre["stmts"].append({"lhs": {"local": i + 1 + lo, "proj": [], "ty": cj["locals"][i + 1]["ty"]}, "rv": {"k": "use", "op": a}, "line": line})
+        pre["term"] = {"k": "goto", "target": bo}
+        j["blocks"].append(pre)
+        ret_target = t["target"]
+        for nb in j["blocks"][bo:bo + len(cj["blocks"])]:
+            if nb["term"]["k"] == "return":
+                nb["stmts"].append({"lhs": t["dest"], "rv": {"k": "use", "op": {"k": "move", "place": {"local": lo, "proj": [], "ty": cj["locals"][0]["ty"]}}}, "line": line})
+                nb["term"] = {"k": "goto", "target": ret_target} if ret_target >= 0 else {"k": "unreachable"}
+        t["orig_target"] = t["target"]
+        t["target"] = pre["id"]
+        t["inlined"] = cn
+
+    def _splice_async(self, j, blk, a, cn, co_name):
+        cj = self.view_json(co_name)
+        create = blk["term"]
+        pblk = j["blocks"][a.poll_call_bb]
+        pt = pblk["term"]
+        if pt["k"] != "call" or pt.get("inlined"):
+            return
+        lo, bo = self._append(j, cj, co_name)
+        line = create.get("line")
+        names = self.f.bodies[cn].j["locals"]
+        upvars = cj.get("upvars") or []
+        pre = {"id": len(j["blocks"]), "cleanup": False, "stmts": [], "origin": co_name, "file": cj["span"]["file"]}
+        # environment: the coroutine object built from the creating call's arguments (async fn bodies capture their parameters in order)
+        fields = [l.get("name") or f"arg{i}" for i, l in enumerate(names[1:1 + len(create["args"])])]
+        pre["stmts"].append({"lhs": {"local": 1 + lo, "proj": [], "ty": cj["locals"][1]["ty"]},
+                             "rv": {"k": "agg", "coroutine": co_name, "fields": fields, "ops": list(create["args"])}, "line": line})
+        if cj["argc"] >= 2 and len(j["locals"]) > 2:
+            pre["stmts"].append({"lhs": {"local": 2 + lo, "proj": [], "ty": cj["locals"][2]["ty"]}, "rv": {"k": "use", "op": {"k": "copy", "place": {"local": 2, "proj": [], "ty": j["locals"][2]["ty"]}}}, "line": line})
+        pre["term"] = {"k": "goto", "target": bo}
+        j["blocks"].append(pre)
+        ret_target = pt["target"]
+        for nb in j["blocks"][bo:bo + len(cj["blocks"])]:
+            if nb["term"]["k"] == "return":
+                nb["stmts"].append({"lhs": pt["dest"], "rv": {"k": "agg", "adt": "std::task::Poll", "variant": "Ready", "fields": ["0"],
+                                                              "ops": [{"k": "move", "place": {"local": lo, "proj": [], "ty": cj["locals"][0]["ty"]}}]}, "line": line})
+                nb["term"] = {"k": "goto", "target": ret_target} if ret_target >= 0 else {"k": "unreachable"}
+        pt["orig_target"] = pt["target"]
+        pt["target"] = pre["id"]
+        pt["inlined"] = co_name
+        create["inlined_async"] = cn
